@@ -497,7 +497,39 @@ def scenario_cases(rng, tier, pool, other_confirmed, unconf, stats):
                 f = C.npdu(bytes(a))
             od.rx(od.w.raw, f); script.append(f)
         keep('dev:dcc-disabled', od, {'family': 'communication disabled', 'frames': [f.hex() for f in script]})
+    # routed requests whose originator has a MAC address of every legal length (SLEN 1..8: ARCNET/MS-TP, ZigBee/IPv6 VMAC,
+    # Ethernet/B-IP, LonTalk Neuron ID 7, ...; 16 and 18: IPv6 forms; 255: the largest the octet allows), well-formed and
+    # mutated, some behind a global-broadcast DADR; and frames for remote stations (DLEN of the same range), which a
+    # device with one adapter lets pass
+    for k in range(330 if big else 66):
+        od = ObservedDevice()
+        w = od.w
+        L = MAC_LENGTHS[k % len(MAC_LENGTHS)]
+        snet, sadr = rng.choice([1, 5, 6, 700, 65534]), bytes(rng.randrange(256) for _ in range(L))
+        script, inv = [], 150
+        for node in [rng.choice([w.raw, w.raw2]) for _ in range(rng.randrange(1, 4))]:
+            name, apdu = rng.choice(pool)
+            r = rng.random()
+            if r < 0.45:
+                apdu = rng.choice(C.mutations(rng, apdu, 2))[1]
+            a = bytearray(apdu); a[2] = inv
+            inv += 1
+            if r > 0.85:       # for somebody else: DNET/DLEN/DADR of a remote station (and the source fields or not)
+                dl = rng.choice(MAC_LENGTHS)
+                hdr = bytes([1, 0x24 | (0x08 if rng.random() < 0.5 else 0), 0, 9, dl]) + bytes(rng.randrange(256) for _ in range(dl))
+                if hdr[1] & 0x08:
+                    hdr += bytes([snet >> 8, snet & 255, L]) + sadr
+                f = hdr + bytes([255]) + bytes(a)
+            elif r > 0.75:     # global broadcast DADR in front of the source fields
+                f = bytes([1, 0x2C, 255, 255, 0, snet >> 8, snet & 255, L]) + sadr + bytes([255]) + bytes(a)
+            else:
+                f = C.npdu_routed(bytes(a), snet, sadr)
+            od.rx(node, f); script.append(f)
+        keep('dev:routed-maclen', od, {'family': 'routed requests, source/destination MAC lengths', 'slen': L, 'frames': [f.hex() for f in script]})
     return out
+
+
+MAC_LENGTHS = [1, 2, 3, 4, 5, 6, 7, 8, 16, 18, 255]
 
 
 def single_case(name, how, m):
